@@ -7,7 +7,7 @@ import itertools
 import json
 
 from ..cfg import CFG, typestate, witness, calls_at
-from ..loader import AnalysisError, Repo, body_nodoc, dotted, norm, walk_no_nested, enclosing, head, strip_cast
+from ..loader import AnalysisError, Repo, body_nodoc, dotted, norm, walk_no_nested, enclosing, head, strip_cast, qualname
 from ..nego_model import AcceptorModel, RoleTable, spec_outcome
 from ..report import Report, VERIF
 
@@ -214,26 +214,56 @@ def run(repo: Repo, rep: Report, tier: str) -> None:
     rep.extra["role_cells"] = n
 
     # ---- models ------------------------------------------------------------------------
-    normal = AcceptorModel(repo, "negotiate_as_acceptor")
-    unres = AcceptorModel(repo, "negotiate_unrestricted")
-    rep.sample({"negotiate_as_acceptor": {"default roles when a supported role is None": normal.default, "outcome indices (as_scu, as_scp)": normal.idx, "no-role result": normal.norole_result, "reply": normal.reply}})
-    rep.sample({"negotiate_unrestricted": {"default": unres.default, "lookup setting": unres.fixed_setting, "outcome indices": unres.idx, "no-role result": unres.norole_result}})
-    for m in (normal, unres):
-        fq = f"presentation.{m.fname}"
-        rep.check(m.idx == (2, 3), "role-table", fq, f"as_scu, as_scp = outcome{list(m.idx)}", "the acceptor's roles are elements 2 and 3 of the outcome tuple", mod=pres, node=m.fn)
+    # The decision tables are computed by evaluating the two functions themselves on every point of the
+    # role space (sa/nego_eval.py + sa/minipy.py): independent of how the role section is spelled.
+    from ..minipy import Unsupported
+    from ..nego_eval import NegoEval
+
+    ne = NegoEval(repo)
+    fa = repo.func("presentation", "negotiate_as_acceptor")
+    fu = repo.func("presentation", "negotiate_unrestricted")
+
+    class _M:
+        def __init__(self, fname, fn):
+            self.fname, self.fn, self.reply_node, self.role_if = fname, fn, fn, fn
+
+    normal, unres = _M("negotiate_as_acceptor", fa), _M("negotiate_unrestricted", fu)
     # ---- (5)/(6) decision tables -----------------------------------------------------
     wire_props = [None] + [(a, b) for a in B for b in B]  # proposals as they arrive (booleans)
     settings = [(a, b) for a in (True, False, None) for b in (True, False, None)]
-    for m, sets in ((normal, settings), (unres, [unres.fixed_setting])):
+    n_pts = 0
+    for m, sets in ((normal, settings), (unres, [(True, True)])):
         fq = f"presentation.{m.fname}"
         for p in wire_props:
             for s in sets:
                 try:
-                    d = m.decide(table, p, s)
-                except KeyError as exc:
-                    rep.fail("role-table", fq, f"proposal={p} setting={s}: table lookup {exc}", "the role table lookup has no entry for this combination (KeyError at run time)", mod=pres, node=m.fn)
+                    d = ne.acceptor(p, s) if m is normal else ne.unrestricted(p)
+                except Unsupported as exc:
+                    rep.defer(f"{fq}: not evaluable on proposal={p}, setting={s}: {exc}")
+                    continue
+                n_pts += 1
+                if "raised" in d or "count" in d or "replies" in d:
+                    rep.fail("role-table", fq, f"proposal={p} setting={s}: {d}", f"negotiating one proposed context with proposal {p} against supported roles {s} does not produce one result ({d}): a lookup without an entry raises at run time, or the context is dropped / duplicated", mod=pres, node=m.fn)
                     continue
                 inst = f"proposal={p}, supported roles={s}"
+                # the acceptor's roles are what PS3.7 D.3.3.4 gives for (proposal, supported roles)
+                want = spec_outcome(p if p is not None else (None, None), s)[2:]
+                if d["result"] == 0 and (m is normal or p is not None):
+                    # (unrestricted mode without a role proposal accepts with both roles: its documented purpose)
+                    rep.check((d["as_scu"], d["as_scp"]) == want, "role-table", fq, f"[{inst}] -> as_scu={d['as_scu']}, as_scp={d['as_scp']}", f"PS3.7 D.3.3.4 gives the acceptor (scu, scp) = {want} for this proposal and these supported roles", mod=pres, node=m.fn)
+                elif m is normal:
+                    rep.check(want == (False, False) and d["result"] == 1, "result-codes", fq, f"[{inst}] -> result {d['result']}", f"a context whose transfer syntax matched is refused here although the acceptor could act as (scu, scp) = {want}; only 'no usable role' is a reason, with result 0x01", mod=pres, node=m.fn)
+                if d["result"] == 0:
+                    rep.check(d["ts"] == ["T2" if m is normal else "T1"] and d["cid"] == 1, "ts-choice", fq, f"[{inst}] -> transfer syntax {d['ts']}, id {d['cid']}", "the accepted context carries the proposal's id and one transfer syntax: the acceptor's first supported one that was proposed (unrestricted: the first proposed)", mod=pres, node=m.fn)
+                    if d["reply"] is not None:
+                        r0, r1 = d["reply"][0], d["reply"][1]
+                        okb = isinstance(r0, bool) and isinstance(r1, bool)
+                        rep.check(okb, "reply-mask", fq, f"[{inst}] -> reply ({r0}, {r1})", "a role reply carries two booleans: an unset (None) role in the reply item is not encodable as 'accept / do not accept' and tells the requestor nothing", mod=pres, node=m.fn)
+                        if okb and p is not None:
+                            # the roles the acceptor takes must be the ones its reply stands for
+                            implied = spec_outcome(p, (r0, r1))[2:]
+                            rep.check(implied == (d["as_scu"], d["as_scp"]), "reply-mask", fq, f"[{inst}] -> reply ({r0}, {r1}) but acceptor acts as (scu={d['as_scu']}, scp={d['as_scp']})", f"the reply tells the requestor the acceptor accepted (scu, scp) = ({r0}, {r1}), which by PS3.7 D.3.3.4 makes the acceptor {implied}; it acts as ({d['as_scu']}, {d['as_scp']}) instead - both sides then wait for the other to act", mod=pres, node=m.fn)
+                        rep.check(d["reply"][2] in ("AB", True), "reply-ownership", fq, f"[{inst}] reply for {d['reply'][2]}", "the role reply must name the proposed context's SOP class", mod=pres, node=m.fn)
                 usable = d["result"] != 0 or bool(d["as_scu"]) or bool(d["as_scp"])
                 rep.check(usable, "role-usable", fq, f"[{inst}] -> result {d['result']}, as_scu={d['as_scu']}, as_scp={d['as_scp']}", "the context is accepted (result 0x00) although the acceptor may act neither as SCU nor as SCP on it", mod=pres, node=getattr(m, "role_if", m.fn))
                 if d["reply"] is not None and p is not None:
@@ -241,28 +271,25 @@ def run(repo: Repo, rep: Report, tier: str) -> None:
                     rep.check(not over, "reply-mask", fq, f"[{inst}] -> reply {d['reply']}", "the reply grants a role the requestor did not propose (PS3.7 D.3.3.4: shall not return 1 where 0 was proposed)", mod=pres, node=m.reply_node)
                 if d["reply"] is None and p is not None and d["result"] == 0 and m is unres:
                     rep.fail("reply-mask", fq, f"[{inst}] no reply", "a role proposal on an accepted storage context must be answered", mod=pres, node=m.reply_node)
-    # no-role rejection code
-    rep.check(normal.norole_result == 1 and normal.norole_in_section, "result-codes", "presentation.negotiate_as_acceptor", f"no usable role -> result {normal.norole_result}", "a context with no usable role is rejected as user-rejection (0x01)", mod=pres, node=normal.fn)
+    rep.floor("role-space points evaluated", n_pts, 45)
+    # the other two outcomes of one proposed context: no common transfer syntax (0x04), abstract syntax not supported (0x03)
+    for kw, want_res in ((dict(ts_match=False), 4), (dict(supported=False), 3)):
+        for p in (None, (True, True)):
+            try:
+                d = ne.acceptor(p, (None, None), **kw)
+            except Unsupported as exc:
+                rep.defer(f"presentation.negotiate_as_acceptor: not evaluable ({exc})")
+                continue
+            rep.check(d.get("result") == want_res and d.get("reply") is None and d.get("cid") == 1 and d.get("ab") == "AB", "result-codes", "presentation.negotiate_as_acceptor", f"{kw}, proposal={p} -> {d}", f"a proposed context {'without a common transfer syntax' if want_res == 4 else 'whose abstract syntax is not supported'} is answered with result {want_res:#04x}, the proposal's id and abstract syntax, and no role reply", mod=pres, node=fa)
 
     # ---- (2) one result per proposed context ----------------------------------------------
-    fa = normal.fn
     check_one_result(rep, pres, fa, "presentation.negotiate_as_acceptor", "result_contexts", ["rq_contexts", "requestor_contexts.items()"])
-    fu = unres.fn
     check_one_result(rep, pres, fu, "presentation.negotiate_unrestricted", "result_cx", ["storage_contexts"])
     check_iteration_independent(rep, pres, fa, "presentation.negotiate_as_acceptor", "requestor_contexts.items()", ["result_contexts", "reply_roles"])
     check_iteration_independent(rep, pres, fu, "presentation.negotiate_unrestricted", "storage_contexts", ["result_cx", "reply_roles"])
     check_reply_ownership(rep, pres, fa, "presentation.negotiate_as_acceptor", "reply_roles")
     check_reply_ownership(rep, pres, fu, "presentation.negotiate_unrestricted", "reply_roles")
-    # identity of the result: id and abstract syntax copied from the proposal
-    keyd = [s for s in walk_no_nested(fa) if isinstance(s, ast.Assign) and norm(s.targets[0]) == "requestor_contexts"]
-    ok = len(keyd) == 1 and norm(keyd[0].value) == "{(cx.context_id, cx.abstract_syntax): cx for cx in rq_contexts}"
-    loop = [f for f in walk_no_nested(fa) if isinstance(f, ast.For) and norm(f.iter) == "requestor_contexts.items()"]
-    ok = ok and len(loop) == 1 and norm(loop[0].target) == "((cntx_id, ab_syntax), rq_context)"
-    src = [norm(s) for s in loop[0].body] if loop else []
-    ok = ok and "context.context_id = cntx_id" in src and "context.abstract_syntax = ab_syntax" in src and "context = PresentationContext()" in src
-    rep.check(ok, "one-result", "presentation.negotiate_as_acceptor", "result carries the proposal's (context_id, abstract_syntax)", "each result must be a fresh context with the proposed id and abstract syntax", mod=pres, node=fa)
-    srcu = [norm(s) for s in unres.loop.body]
-    rep.check("cx.context_id = rcx.context_id" in srcu and "cx.abstract_syntax = rcx.abstract_syntax" in srcu and "cx = PresentationContext()" in srcu, "one-result", "presentation.negotiate_unrestricted", "result carries the proposal's (context_id, abstract_syntax)", "each result must be a fresh context with the proposed id and abstract syntax", mod=pres, node=fu)
+    # (identity of the result - id, abstract syntax, one transfer syntax - is part of the point evaluation above)
     # partition in unrestricted mode: every proposed context goes to exactly one list
     part = [f for f in walk_no_nested(fu) if isinstance(f, ast.For) and norm(f.iter) == "rq_contexts"]
     okp = False
@@ -329,3 +356,42 @@ def run(repo: Repo, rep: Report, tier: str) -> None:
     rep.check(oka, "mode-select", "acse.ACSE._negotiate_as_acceptor", "accepted = result 0, rejected = the rest", "every result must land in exactly one of the accepted / rejected collections", mod=acse, node=na)
     rq = [s for s in walk_no_nested(na) if isinstance(s, ast.Assign) and norm(s.targets[0]) == "rq_roles"]
     rep.check(len(rq) == 1 and norm(rq[0].value) == "{uid: (item.scu_role, item.scp_role) for uid, item in self.requestor.role_selection.items()}", "mode-select", "acse.ACSE._negotiate_as_acceptor", rq[0] if rq else "rq_roles", "proposed roles must be passed as (scu_role, scp_role) per SOP class", mod=acse, node=na)
+    check_config_copy(repo, rep)
+
+
+CONTEXT_FIELDS = ("abstract_syntax", "transfer_syntax", "scu_role", "scp_role")
+
+def check_config_copy(repo, rep) -> None:
+    """The acceptor negotiates against a per-association copy of the server's supported contexts. The
+    copy must carry every setting the negotiation reads - abstract syntax, transfer syntaxes and both role
+    settings, where False (refuse the role) and None (not configured) are different values: deepcopy of the
+    list / of each element, or a hand-written copy that assigns each of those fields unconditionally."""
+    rep.rule("config-copy", "the per-association copy of the supported contexts is a deepcopy, or assigns abstract syntax, transfer syntaxes and both role settings unconditionally")
+    tr = repo.mod("transport")
+    n = 0
+    for st in ast.walk(tr.tree):
+        if not (isinstance(st, ast.Assign) and norm(st.targets[0]).endswith(".supported_contexts")):
+            continue
+        n += 1
+        fq = f"transport.{qualname(st)}"
+        v = strip_cast(st.value)
+
+        def is_deepcopy(e):
+            e = strip_cast(e)
+            return isinstance(e, ast.Call) and (dotted(e.func) or "").split(".")[-1] == "deepcopy"
+
+        if is_deepcopy(v) or (isinstance(v, ast.ListComp) and is_deepcopy(v.elt)):
+            rep.ok("config-copy", f"{fq} :: {norm(st)[:70]}", "deepcopy")
+            continue
+        helper = tr.funcs.get(v.func.id) if isinstance(v, ast.Call) and isinstance(v.func, ast.Name) else None
+        if helper is None:
+            rep.fail("config-copy", fq, st, "the supported contexts are handed to the association without a recognisable copy: shared objects are modified by the negotiation (context IDs, results) of every association, or settings are lost", mod=tr, node=st)
+            continue
+        missing = []
+        for f_ in CONTEXT_FIELDS:
+            writes = [s_ for s_ in walk_no_nested(helper) if isinstance(s_, ast.Assign) and isinstance(s_.targets[0], ast.Attribute) and s_.targets[0].attr.lstrip("_") == f_]
+            uncond = [s_ for s_ in writes if enclosing(s_, (ast.If, ast.Try, ast.While)) is None]
+            if not uncond:
+                missing.append(f_ + (" (only under a condition)" if writes else ""))
+        rep.check(not missing, "config-copy", f"transport.{helper.name}", helper, f"the hand-written copy of the supported contexts does not always carry {missing}: a configured value (e.g. scu_role = scp_role = False, 'refuse both roles') silently becomes 'not configured' and the context is negotiated with the default roles", mod=tr, node=helper)
+    rep.floor("supported_contexts assignments in transport.py", n, 1)
